@@ -250,6 +250,22 @@ def check_sa_edit(setname, key, edit):
 
 
 GROUP_CODES = (0x00, 0x28, 0xA8, 0x88, 0x5A, 0x9E, 0xA3, 0x12)
+OUT_OF_RANGE_CODES = (0x100, 0x128, 0x1A8, 0x10088, 0x1FF, -1, -216, 1 << 32)
+
+
+def check_out_of_range(name, code, how):
+    """an operation code that is no byte (an int packed with a service action, a negative number): marshall_cdb / build_cdb refuse it -
+    they never size a CDB for the code modulo 256"""
+    from vf import cmdspace as CS
+    from vf.props import c02
+    cls, inst, op = c02.fresh_instance(name)
+    vals = c02.base_of(name, "zeros")
+    vals["opcode"] = code
+    try:
+        cdb = bytes(cls.marshall_cdb(dict(vals)) if how == "marshall_cdb" else inst.build_cdb(**vals))
+    except Exception:   # noqa: BLE001 - refused
+        return []
+    return [("out_of_range_opcode/%s" % how, "%s.%s with operation code %#x: a CDB came out (%s) instead of a refusal" % (name, how, code, cdb.hex()))]
 
 
 def check_mismatch(name, code, how):
@@ -318,6 +334,8 @@ def run_case(case):
         return check_sa_edit(*case[1:])
     if kind == "mismatch":
         return check_mismatch(*case[1:])
+    if kind == "out_of_range":
+        return check_out_of_range(*case[1:])
     if kind == "op":
         return check_entry(case[1], case[2])[0]
     if kind == "sa":
@@ -405,6 +423,9 @@ def run_partition(part, tier, seed):
             for code in GROUP_CODES:
                 for how in ("constructor", "marshall_cdb"):
                     do(["mismatch", name, code, how])
+            for code in OUT_OF_RANGE_CODES:
+                for how in ("marshall_cdb", "build_cdb"):
+                    do(["out_of_range", name, code, how])
         return acc
     if part[0] == "sa_edit":
         for s_ in SETS:
